@@ -755,6 +755,7 @@ CORPUS_FAULTS = [
     (4, {"kind": "ret", "payload": "empty", "idx": 0}),
     (7, {"kind": "ret", "payload": "objarr-other", "idx": 0}),   # object array of non-strings for a string tensor
     (7, {"kind": "ret", "payload": "objarr-str", "idx": 0}),
+    (7, {"kind": "ret", "payload": "objarr-first-str", "idx": 0}),   # ... whose first element is a str and a later one is not
     (6, {"kind": "ret", "payload": "list2", "idx": 0}),          # inlined model
     (5, {"kind": "ret", "struct": "swap"}),                      # TopK outputs swapped by the backend
     (0, {"kind": "raise", "stage": "run", "exc": "RuntimeError"}),
